@@ -104,7 +104,7 @@ def make_data(cfg):
         return absstate.make_data(cfg["n"], kind="flat", grid=3)
     # unequal cluster sizes: data points carry different outlier priors, as clustered input gives
     return absstate.make_data(cfg["n"], dims=cfg.get("dims", 1), grid=5, seed=cfg.get("dseed", 0), kind="int",
-                              outlier_prob=(0.2 if cfg["outl"] else 0.0), sizes=[(1, 3, 2)[i % 3] for i in range(cfg["n"])])
+                              outlier_prob=(0.2 if cfg["outl"] else 0.0), sizes=[(1, 3, 2)[i % 3] for i in range(cfg["n"])], offset=cfg.get("offset", 0.0))
 
 
 def make_sampler(cfg, td, rng, which="tree"):
@@ -135,7 +135,8 @@ def make_sampler(cfg, td, rng, which="tree"):
 def cfg_label(cfg):
     return "wiring=%s|kernel=%s|outl=%d|n=%d|np=%d|thr=%s|dist=%s" % (
         cfg["wiring"], cfg["kernel"], cfg["outl"], cfg["n"], cfg["np"], cfg["thr"],
-        cfg["dist"] + ("" if cfg["dist"] == "table" else ":a=%s" % cfg["alpha"]) + ("" if cfg.get("alpha_pre") is None else ":after_a=%s" % cfg["alpha_pre"]))
+        cfg["dist"] + ("" if cfg["dist"] == "table" else ":a=%s" % cfg["alpha"]) + ("" if cfg.get("alpha_pre") is None else ":after_a=%s" % cfg["alpha_pre"])
+        + ("" if not cfg.get("offset") else ":heavy=%s" % cfg["offset"]))
 
 
 def run_configs(ck, configs, table, which="tree", prop="C01", corrupt=None, sigfn=None, structural_only=False):
@@ -260,6 +261,9 @@ def configs_for(tier):
     for k, w, outl, a in (("semi", "run", True, 0.3), ("full", "lib", False, 2.5), ("boot", "run", True, 1.0), ("semi", "lib", False, 0.3)):
         cfgs.append(dict(n=2, kernel=k, wiring=w, outl=outl, thr=0.5, np=2, dist="real", alpha=a))
     cfgs.append(dict(base, n=3, kernel="full", wiring="lib", outl=False, thr=0.5))
+    # heavy data points (two samples, log-likelihoods around -800 and -1600): weights far below the range of exp()
+    cfgs.append(dict(n=2, kernel="semi", wiring="run", outl=True, thr=0.5, np=2, dist="real", alpha=1.3, dims=2, offset=800.0))
+    cfgs.append(dict(n=2, kernel="boot", wiring="lib", outl=False, thr=1.0, np=3, dist="real", alpha=0.7, dims=2, offset=800.0))
     # concentration changed in place between two updates on the same objects, no cache clear in between
     cfgs.append(dict(n=2, kernel="semi", wiring="lib", outl=True, thr=0.5, np=2, dist="real", alpha=2.5, alpha_pre=0.4))
     cfgs.append(dict(n=2, kernel="full", wiring="run", outl=False, thr=0.5, np=2, dist="real", alpha=0.4, alpha_pre=2.5))
